@@ -1,12 +1,13 @@
 (* C02 — memory-map allocation: resources and windows are placed disjointly, in bounds, aligned, and
    reported exactly; failed calls change nothing; frozen maps reject additions; the internal
    assertions of _RangeMap.insert and _Namespace are unreachable.
-   Statements only; proofs live in Proofs/MemArith.v, MemNames.v, MemAlloc.v, MemReports.v, MemWorld.v.
+   Statements only; proofs live in Proofs/MemArith.v, MemNames.v, MemAlloc.v, MemReports.v, MemWorld.v,
+   MemRecords.v.
    Every theorem quantifies over all reachable worlds (all finite API call histories). *)
 From Coq Require Import ZArith List Bool Lia.
 From Soc Require Import Lib.Res Lib.PyList Model.MemoryMap Model.MemSpec.
 From Soc Require Import Proofs.RangeMap Proofs.MemArith Proofs.MemNames Proofs.MemAlloc
-                        Proofs.MemReports Proofs.MemWorld.
+                        Proofs.MemReports Proofs.MemWorld Proofs.MemRecords.
 Import ListNotations.
 Open Scope Z_scope.
 
@@ -40,6 +41,20 @@ Theorem C02_reports_ascending : forall w m, reachable w -> In m w ->
   ascending 0 (map (fun '(_, _, s, e, _) => (s, e)) (windows m)).
 Proof. intros w m Hr Hin. exact (reports_ascending m (reachable_in_wf w m Hr Hin)). Qed.
 Print Assumptions C02_reports_ascending.
+
+(* extra (complements T2): records and range entries are in one-to-one correspondence — every
+   resource / window record ever added is reported, with the range stored in its record, nothing
+   else is reported, and identities are pairwise distinct *)
+Theorem C02_records_reported : forall w m, reachable w -> In m w ->
+  (forall id n s e, In (id, n, s, e) (resources m) <->
+     exists r, In r (m_ress m) /\ r_id r = id /\ r_name r = n /\ r_start r = s /\ r_stop r = e) /\
+  (forall id n s e st, In (id, n, s, e, st) (windows m) <->
+     exists wn c, In (wn, c) (m_wins m) /\ w_id wn = id /\ w_name wn = n /\ w_start wn = s /\
+                  w_stop wn = e /\ w_step wn = st) /\
+  NoDup (map e_asg (m_ranges m)) /\
+  NoDup (map r_id (m_ress m)) /\ NoDup (map (fun wc => w_id (fst wc)) (m_wins m)).
+Proof. intros w m Hr Hin. exact (records_reported m (reachable_wf_full w m Hr Hin)). Qed.
+Print Assumptions C02_records_reported.
 
 (* T3: a successful add_resource places exactly the computed range: size rounded up to the
    effective alignment (at least one unit), at the given address or at the cursor rounded up, moves
